@@ -590,3 +590,30 @@ def rule_scope_entered(ctx, rid="R2.12"):
     else:
         r.fail("%s|scope-entered|semantic" % disp.qual, site(disp), sem.get("scope") or sem.get("raises"))
     return r
+
+
+def rule_who_raises_ref_error(ctx, rid="R2.13"):
+    """RefResolutionError is the one documented way for a valid schema to end in an exception: "a reference cannot be resolved".  It
+    is raised where a retrieval failed (resolve_from_url), where a pointer designates nothing (resolve_fragment) and where pop_scope
+    finds nothing to pop -- and nowhere else: a depth limit, a guard or a cache that raises it would turn candidates and instances the
+    drafts accept into errors that callers are told to expect."""
+    prog = ctx.prog
+    calls = calls_of(prog)
+    R = prog.cls("validators.RefResolver")
+    allowed = {R.methods[m] for m in ("resolve_from_url", "resolve_fragment", "pop_scope") if m in R.methods}
+    allowed = calls.with_private_helpers(allowed) | {x for f in list(allowed) for x in f.nested.values() if isinstance(x, Func)}
+    r = ctx.rule(rid, "RefResolutionError is raised only by the retrieval wrapper, the pointer walk and pop_scope on an empty stack", floor=3)
+    n = 0
+    for f in sorted(prog.funcs.values(), key=lambda x: x.qual):
+        if f.mod.name in ("cli",):
+            continue
+        for node in walk_body(f):
+            if isinstance(node, ast.Raise) and node.exc is not None and "RefResolutionError" in norm(node.exc):
+                n += 1
+                if f in allowed:
+                    r.ok(site(f, node), "%s" % norm(node.exc)[:60])
+                else:
+                    r.fail("%s|raises-ref-error" % f.qual, site(f, node),
+                           "%s raises RefResolutionError (`%s`) although no reference failed to resolve there: callers treat this exception as "
+                           "\"the schema's reference is broken\"" % (f.qual, norm(node.exc)[:50]))
+    return r
